@@ -442,10 +442,10 @@ func Timeout[T any](duration time.Duration) func(Observable[T]) Observable[T] {
 
 			var lastCtx atomic.Value
 
-			lastCtx.Store(subscriberCtx) // if no value is emitted, we use the subscriber context
+			lastCtx.Store(timeoutCtxBox{subscriberCtx}) // if no value is emitted, we use the subscriber context
 
 			timer := time.AfterFunc(duration, func() {
-				destination.ErrorWithContext(lastCtx.Load().(context.Context), newTimeoutError(duration)) //nolint:errcheck,forcetypeassert
+				destination.ErrorWithContext(lastCtx.Load().(timeoutCtxBox).ctx, newTimeoutError(duration)) //nolint:errcheck,forcetypeassert
 			})
 
 			sub = source.SubscribeWithContext(
@@ -456,7 +456,7 @@ func Timeout[T any](duration time.Duration) func(Observable[T]) Observable[T] {
 						destination.NextWithContext(ctx, value)
 						// @TODO: what happens if the above line is too slow?
 						timer.Reset(duration)
-						lastCtx.Store(ctx)
+						lastCtx.Store(timeoutCtxBox{ctx})
 					},
 					func(ctx context.Context, err error) {
 						timer.Stop()
@@ -476,6 +476,11 @@ func Timeout[T any](duration time.Duration) func(Observable[T]) Observable[T] {
 		})
 	}
 }
+
+// timeoutCtxBox gives every context stored in Timeout's atomic.Value the same
+// concrete type: atomic.Value panics when values of different concrete types
+// are stored, and contexts have many concrete types.
+type timeoutCtxBox struct{ ctx context.Context }
 
 // Materialize converts the source Observable into a stream of Notification instances.
 // Play: https://go.dev/play/p/ZHtPviPoqWK
